@@ -95,6 +95,17 @@ CHECKS["C18"] = dict(cat="model_checking", engine="H-history-bfs", tech="explici
         "user-process connection, relay bytes, nor return mailbox data; LOGIN / USER+PASS for every (account kind x password variant x encoding) succeed iff usable account and exact password.",
    note="No TLS, sockets or real subprocess; accounts hashed with PBKDF2-SHA1/1 iteration; at exactly 60 s either answer is accepted. Trusted: vf/frontend.py stubs, the reference automaton in vf/props/c18.py.",
    ref="DESIGN.md section 4 C18")
+CHECKS["C19"] = E("C19", "Every sequence of <=2 (thorough: <=3) items from a 13-item menu (plain command, empty line, one/two synchronising literals, non-synchronising literal, literal that looks like a command, "
+   "literal ending in '{5}', over-limit literal sync/non-sync (also with CR LF inside), over-limit line, over-limit accumulated command) is sent to the real front-end reader under every segmentation of a stretch "
+   "into reads with <=2 cut points, the scripted client waiting for '+' or BAD as RFC 3501/7888 require; frames relayed, '+' and BAD counts and being in sync afterwards must equal a reference tokenizer's. "
+   "Response streams with CRLF-free runs around the 128 KiB stream limit must reach the client byte for byte.",
+   tech="exhaustive enumeration of item sequences and read segmentations against a reference tokenizer")
+CHECKS["C06"] = dict(cat="model_checking", engine="S-schedule-dfs", tech="exhaustive command x argument x mailbox-state x session-state matrix on the real server + deviation-bounded schedule exploration of DELETE/RENAME races",
+   text="Every cell of (10 set-up histories incl. pending EXPUNGE, orphaned session, \\Noselect live and after restart, idling) x (260 command forms incl. UID forms, 10 message-set shapes, "
+        "9 mailbox names, RENAME/LIST/APPEND variants, malformed representatives) is executed through the real IMAPClientProxy.run() on a fresh server: exactly one tagged reply with the "
+        "command's tag, after all untagged data, within 5 virtual seconds and never by the watchdog, NOOP answered afterwards unless BYE was sent. Six DELETE/RENAME-versus-queued-command "
+        "scenarios are explored over all schedules with <=1 (thorough 2) deviations.",
+   note=E_NOTE, ref="DESIGN.md section 4 C06")
 NOT_YET = {}
 
 def main():
